@@ -186,6 +186,25 @@ theorem io_items_cntAll_spec (kind : Kind) (hkind : kind ≠ .plain) (db : Db) (
 theorem io_trim_all_empties (kind : Kind) (db : Db) (hinv : Inv db) :
     step kind db (.trim []) = ([], .bool (!db.isEmpty)) := io_trim_all_spec hinv
 
+/-! ## rejected writes -/
+
+/-- REJECTED ⇒ IDENTITY: a put / add (all kinds) or a plain pin whose value - or any element of its batch, at any position -
+is not str/bytes raises TypeError and changes nothing; so does the io kinds' pin on a tree whose pin is atomic (flag
+`Gen.pinAtomic`, probed from the code on every run; known finding C24-K3 where it is not). -/
+theorem rejected_write_is_identity (kind : Kind) (db : Db) (isPin : Bool) (k : Bytes)
+    (h : kind = .plain ∨ isPin = false ∨ Hio.Gen.pinAtomic = true) :
+    ∃ e, step kind db (.bad isPin k) = (db, .raise e) := by
+  cases kind with
+  | plain => exact ⟨_, rfl⟩
+  | io =>
+    by_cases hv : validKey (suffix k 0) = true
+    · exact ⟨.typeError, by rcases h with h | h | h <;> simp_all [step]⟩
+    · exact ⟨.badValsize, by simp [step, hv]⟩
+  | ioset =>
+    by_cases hv : validKey (suffix k 0) = true
+    · exact ⟨.typeError, by rcases h with h | h | h <;> simp_all [step]⟩
+    · exact ⟨.badValsize, by simp [step, hv]⟩
+
 /-! ## unguarded: what holds for EVERY key set (also the F39 ones) -/
 
 /-- REACHABLE ⇒ WELL-FORMED: whatever history of IoSuber / IoSetSuber operations over whatever keys, the sub-db stays
